@@ -1,5 +1,13 @@
-SOURCE_COMMITS = ["a65ae7b fix: keep BuzHash repeated-input tracking in sync while priming the window",
-                  "5a3c8b9 fix: compare the full header checksum when --verify-header is given"]
+SOURCE_COMMITS = [
+    'a65ae7b fix: keep BuzHash repeated-input tracking in sync while priming the window',
+    '5a3c8b9 fix: compare the full header checksum when --verify-header is given',
+    '0148b59 fix: reject chunker parameters that make the chunkers panic or never progress',
+    '68aa903 fix: reject archives whose rebuild order points outside the chunk list',
+    '56ca2dd fix: do not underflow the remaining size when a server sends too much',
+    '1965d0a fix: serve a zero sized chunk over http without underflowing the run counter',
+    'd496a83 fix: return no data for a zero sized chunk read from a local archive',
+    '1678162 fix: do not overflow the RollSum sums for large hash windows',
+]
 NOTES = ("Every check is decided by a SAT solver over the compiled real code within stated bounds (see DESIGN.md); "
          "exit 2 + an INCONCLUSIVE line means time-out / out of memory / vacuous harness / mirror edit not applicable -- never a pass, never a violation. "
          "known_findings.json lists genuine defects (fixed ones suppress nothing).")
@@ -30,6 +38,36 @@ CLAIMED["C04"] = {
     "text": "Chunk verification step: for every chunk content and every expected hash of every length, verify() accepts iff the truncated digest matches and then hands on exactly that chunk -- so no unverified or altered chunk can become a VerifiedChunk (the only thing feed accepts); raw chunks reach verification unmodified; the comparator the CLI applies to --verify-header is decided for all expected values of all lengths against all header checksums. Solver-decided for all values because corruption is universally quantified over bytes.",
     "design_ref": "DESIGN.md section 4 (C04)",
     "note": "Reduced scope: header checksum test in try_init, real decompressors, exit status and --verify-output are out of reach. Blake2 replaced by an ideal (injective) digest. The --verify-header condition is extracted textually from src/clone_cmd.rs on every run.",
+    "technique": TECH}
+CLAIMED["C15"] = {
+    "text": "Post-decode consumers of untrusted fields and the HTTP state machines under a misbehaving server are run on unconstrained symbolic values; Kani turns every reachable panic, arithmetic overflow, out-of-bounds index and unwrap into a solver-decided check, and a 'never an empty chunk' assertion stands for bounded work. Harnesses go through the reader's own validation (chunker_config_from_params, source_order_is_valid): whatever it accepts must run. Rare field values (window 0, bits 33, index == len, size 0) are exactly what a solver finds and sampling does not -- eight defects were found this way and fixed.",
+    "design_ref": "DESIGN.md section 4 (C15) and section 5",
+    "note": "Reduced scope: protobuf decoding, Blake2, try_init as a whole (incl. the dictionary-size arithmetic and allocation, read not executed), decompressors and info printing are out of reach. Dev-profile semantics (overflow checks on).",
+    "technique": TECH}
+CLAIMED["C06"] = {
+    "text": "chunk_stream step: for every subset of the clone index and every descriptor layout (any offsets/order/gaps) the reader is asked for exactly the descriptors still wanted, each once, in descriptor order, with (offset,size) verbatim, and nothing else; together with the lookup/remove step (a written chunk's entry is gone) a chunk found in a seed is never requested.",
+    "design_ref": "DESIGN.md section 4 (C06/C17)",
+    "note": "Reduced scope: 2 descriptors; header-region reads, in-place scan, block devices and the CLI flow are not executable here. Model map, recording reader mock.",
+    "technique": TECH}
+CLAIMED["C17"] = {
+    "text": "Post-decode reader: both magics and nothing else are accepted (all byte strings <= 16 bytes); descriptor offsets/sizes are passed to the readers verbatim in any order with gaps; raw-vs-compressed rule per chunk; the local reader seeks to each chunk's own offset and the HTTP reader opens a new range request whenever the next chunk is not adjacent (steps shared with C07/C08).",
+    "design_ref": "DESIGN.md section 4 (C06/C17)",
+    "note": "Reduced scope: protobuf decoding (unknown fields), chunk_data_offset addition in try_init and real decompression are out of reach.",
+    "technique": TECH}
+CLAIMED["C02"] = {
+    "text": "Truncated-hash key consistency decided at full width (all 64-byte digests and keys, all lengths): a lookup hits exactly when the truncated hashes agree; index lookup/remove step through the real ChunkIndex; a hit writes the fed chunk's own bytes at the entry's offset, a miss writes nothing -- a seed can change whether bytes come from the archive, never which bytes (given collision freeness).",
+    "design_ref": "DESIGN.md section 4 (C02/C13/C05)",
+    "note": "Reduced scope: seed re-chunking/hashing and all CLI stages are not executable; feed's hit path is decomposed (see C13). Model map instead of std HashMap.",
+    "technique": TECH}
+CLAIMED["C13"] = {
+    "text": "Write step decided for all offsets/data: per destination one seek to exactly that offset followed by all of the chunk's bytes, once; lookup-then-write in feed's order: entry removed when written (at most once), unrelated entries untouched; miss path of feed writes nothing.",
+    "design_ref": "DESIGN.md section 4 (C02/C13/C05)",
+    "note": "Reduced scope: CloneOutput::feed's hit path as ONE unit does not get through CBMC (> 28 GB); the real lookup and the real write loop are executed in feed's order by the harness, the four lines of glue are read. In-place stripping / reorder / source-length bound not applicable (C03).",
+    "technique": TECH}
+CLAIMED["C05"] = {
+    "text": "Fault step: the k-th seek or write fails, or the k-th write accepts only a prefix (k, prefix symbolic) => write_offset returns Err, never Ok with fewer bytes than the chunk on the output; bytes that did land are contiguous from the destination. All fault points inside the bound are covered by one query.",
+    "design_ref": "DESIGN.md section 4 (C02/C13/C05)",
+    "note": "Reduced scope: only 'a run whose write failed or was cut short never reports success' at the write step; the 're-running completes' half is rescan+reorder+fetch and is not applicable.",
     "technique": TECH}
 NOT_APPLICABLE = {
     "C01": "writer pipeline = tokio runtime + spawn_blocking threads + tokio::fs/tempfile + brotli/zstd/lzma: none of it can be encoded by Kani/CBMC (no threads, no FFI file I/O, compression loops grow with input); the reader-side sub-lemmas are checked under C17/C06/C04 and the tiling half under C09",
